@@ -423,7 +423,9 @@ def printable(s, lo, hi):
         assume(32 <= ord(ch) <= 126)
 
 
-TEMPLATES = {"plain": ("", ""), "entity": ("&", ";"), "field": ("{", "}")}
+TEMPLATES = {"plain": ("", ""), "entity": ("&", ";"), "field": ("{", "}"),
+             "pct": ("%3", "b%3E"),          # percent-escape of markup: "%3" + "C" + "b%3E" is <b> once percent-decoded
+             "pct2": ("%", "Cimg%20src=x%3E")}
 JSON = "application/json"
 
 
@@ -481,6 +483,7 @@ def html_plan(tier):
     if tier == "quick":
         return [     # most expensive first
             ("404", "qs", "entity", 2, 250), ("404", "host", "plain", 2, 200), ("404", "qs", "field", 2, 200),
+            ("404", "qs", "pct", 1, 150), ("404", "host", "pct", 1, 150), ("500", "qs", "pct", 1, 150), ("404", "qs", "pct2", 1, 150),
             ("404", "qs", "plain", 2, 150), ("405", "qs", "plain", 2, 150), ("500text", "path", "plain", 1, 100),
             ("404", "path", "plain", 1, 100), ("critical", "path", "entity", 2, 150), ("critical", "path", "plain", 2, 100),
             ("500", "qs", "plain", 1, 60), ("500", "host", "plain", 1, 60), ("405", "host", "plain", 1, 60),
